@@ -95,7 +95,7 @@ class Check(PropertyCheck):
                 burst()
         meta = {"family": family, "filter": "none" if f is None else "+".join(f) or "empty-composite",
                 "flexible": gen.is_flexible(jobs), "zero_dur": gen.has_zero(jobs), "queries": nq,
-                "accepted": n_acc, "filter_style": rng.choice(["callable", "enum", "str"])}
+                "accepted": n_acc, "filter_style": rng.choice(["callable", "enum", "str", "lazy"])}
         return Scenario(lines, meta)
 
     def make_impl(self, scenario):
